@@ -96,8 +96,7 @@ def oracle(d):
         out1_snap = None
     # ≈
     try:
-        ni, no = G.norm(snap), G.norm(out1)
-        dp = G.diff_paths(ni, no)
+        dp = G.approx_diff(snap, out1)
     except Exception as e:  # noqa: BLE001  (output does not even have the schema's shape)
         dp = [("", "shape", None, f"{type(e).__name__}: {e}")]
     if dp:
@@ -317,7 +316,7 @@ def corpus():
 def case_worker(items):
     """items: list of (label, doc, open_ids).  Runs C (oracle) and B (tie) for each."""
     open_ids = items[0][2] if items else set()
-    res = {"n": 0, "viol": [], "nviol": 0, "known": {}, "ties": [], "nties": 0, "codec_bad": [], "model_err": {}, "model_declined": 0, "real_err": 0, "dom": {}, "outside": []}
+    res = {"n": 0, "viol": [], "nviol": 0, "known": {}, "ties": [], "nties": 0, "codec_bad": [], "model_err": {}, "model_declined": 0, "real_err": 0, "dom": {}, "outside": [], "ui_full": 0, "ui_pos_only": 0}
     try:
         drv = core.Driver() if core.DRIVER_BIN.exists() else None
     except core.Infra:
@@ -332,6 +331,10 @@ def case_worker(items):
         res["n"] += 1
         tie_only = label.startswith("quirk:")
         pristine = copy.deepcopy(d)  # the replay must carry the input as it was BEFORE the code ran
+        if not tie_only:
+            full, other = G.editor_entries(d)
+            res["ui_full"] += len(full)
+            res["ui_pos_only"] += other
         fails, out1 = ([], None) if tie_only else oracle(d)
         if tie_only:
             out1, _e = real_roundtrip(d)
@@ -507,6 +510,8 @@ def run(ck: core.Check):
             for k, n in r["dom"].items():
                 ck.count(f"{kind}: {k}", n)
             outside_domain.extend(r["outside"])
+            ck.count(f"{kind}: _ui entries compared field for field (the editor's entry for the node)", r["ui_full"])
+            ck.count(f"{kind}: _ui entries compared by position only (not the editor's entry)", r["ui_pos_only"])
 
     # 1. corpus: all fixture files
     corp = corpus()
@@ -528,7 +533,7 @@ def run(ck: core.Check):
             out, err = real_roundtrip(w["doc"])
             ck.case("witness:" + w["name"], nontrivial=True)
             ck.count("lean_witnesses_replayed")
-            real_lossless = out is not None and not G.diff_paths(G.norm(w["doc"]), G.norm(out))
+            real_lossless = out is not None and not G.approx_diff(w["doc"], out)
             if real_lossless != bool(w["lossless"]):
                 ck.tie_break("Lean witness (outside Valid): the kernel's verdict and the real code's differ", {"witness": w["name"], "lean_lossless": w["lossless"], "real_lossless": real_lossless, "real_error": err})
             continue
@@ -598,7 +603,11 @@ def run(ck: core.Check):
             "gen.opt.exclude_groups.absent", "gen.opt.exclude_groups.empty", "gen.opt.exclude_groups.present",
             "gen.opt.destination_uuid.absent", "gen.opt.destination_uuid.empty", "gen.opt.destination_uuid.present",
             "gen.groupref.attr.present", "gen.flowref.older_name.action", "gen.flowref.older_name.event", "gen.flowref.older_name.trigger",
-            "gen.group.older_name_same_uuid", "gen.router.switch.wait=timeout", "gen.router.switch.wait=plain", "gen.case.has_group"] + [
+            "gen.group.older_name_same_uuid", "gen.router.switch.wait=timeout", "gen.router.switch.wait=plain", "gen.case.has_group",
+            "gen.operand.expression", "gen.operand.urn_scheme_path", "gen.ui.entry.foreign", "gen.ui.entry.none(node without position)"] + [
+        f"gen.operand.{ns}.segments={k}" for ns in G.OPERAND_NAMESPACES + ["near_namespace"] for k in ("0", "1", "2+")] + [
+        f"gen.ui.{e}.plain_split.{ns}.segments={k}" for e in ("entry", "no_entry") for ns in G.OPERAND_NAMESPACES for k in ("0", "1", "2+")] + [
+        "gen.ui.entry." + t for t in G.UI_ENTRY_CLASSES] + [
         f"gen.trigger.{form}.{t}" for form in ("new", "legacy") for t in G.TRIGGER_TYPES] + [
         "gen.action." + t for t in list(G.PASS_THROUGH) + G.SPECIAL]
     missing = [s for s in need if not ck.strata.get(s)]
